@@ -162,3 +162,61 @@ func VerifC04_InjectiveLengths() {
 		zzverif.Assert(!bytes.Equal(sa, sb), "different-lengths-different-bodies")
 	}
 }
+
+// C04 (5): the digest is a function of the CURRENT field values - asking for it, then changing a body field in place
+// (or editing a by-value copy), gives the digest of the new values - and a node that decodes the wire form (as the
+// contracts do) recomputes the very same digest, whatever the payload length (boundary lengths derived from the
+// integer constants of Unmarshal's SSA).
+func VerifC04_Recompute() {
+	v := verifFullVAA("v", 1)
+	zzverif.Assume(len(v.Payload) >= 1)
+	_ = v.SigningMsg() // whatever this call may have remembered must not matter below
+	_ = v.HexDigest()
+	mode := zzverif.Len("mode", 0, 1)
+	t := v
+	if mode == 1 {
+		c := *v // a by-value copy, edited
+		t = &c
+	}
+	switch zzverif.Len("field", 0, 1, 2, 3, 4, 5, 6, 7) {
+	case 0:
+		t.Timestamp = time.Unix(int64(zzverif.U32("ts2")), 0)
+	case 1:
+		t.Nonce = zzverif.U32("nonce2")
+	case 2:
+		t.Sequence = zzverif.U64("seq2")
+	case 3:
+		t.ConsistencyLevel = zzverif.U8("cl2")
+	case 4:
+		t.EmitterChain = ChainID(zzverif.U16("ec2"))
+	case 5:
+		t.TargetChain = ChainID(zzverif.U16("tc2"))
+	case 6:
+		t.EmitterAddress[31] = zzverif.U8("e2")
+	case 7:
+		t.Payload = []byte{zzverif.U8("p2")}
+	}
+	fresh := &VAA{Version: t.Version, GuardianSetIndex: t.GuardianSetIndex, Timestamp: t.Timestamp, Nonce: t.Nonce, Sequence: t.Sequence, ConsistencyLevel: t.ConsistencyLevel,
+		EmitterChain: t.EmitterChain, TargetChain: t.TargetChain, EmitterAddress: t.EmitterAddress, Payload: t.Payload}
+	zzverif.Assert(bytes.Equal(t.serializeBody(), fresh.serializeBody()), "body-follows-the-current-field-values")
+	zzverif.Assert(t.SigningMsg() == fresh.SigningMsg(), "digest-follows-the-current-field-values")
+	zzverif.Reach("recomputed")
+}
+
+func VerifC04_WireDigest() {
+	v := &VAA{Version: 1, GuardianSetIndex: zzverif.U32("gsi"), Timestamp: time.Unix(int64(zzverif.U32("ts")), int64(zzverif.U32("ns")%1000000000)), Nonce: zzverif.U32("nonce"),
+		Sequence: zzverif.U64("seq"), ConsistencyLevel: zzverif.U8("cl"), EmitterChain: ChainID(zzverif.U16("ec")), TargetChain: ChainID(zzverif.U16("tc")),
+		Payload: zzverif.Bytes("payload", zzverif.LenFromConsts("plen", "Unmarshal", 1, 2, 100, 1000, 1001, 65535, 65536))}
+	copy(v.EmitterAddress[:], zzverif.Bytes("emitter", 32))
+	b, err := v.Marshal()
+	zzverif.Assert(err == nil, "encodes")
+	w, err := Unmarshal(b)
+	zzverif.Assert(err == nil, "wire-form-decodes")
+	if err != nil {
+		return
+	}
+	// what the contracts hash is the tail of the wire form: the node's decoder must arrive at the same digest
+	zzverif.Assert(bytes.Equal(w.serializeBody(), b[6:]), "decoded-body-is-the-wire-body")
+	zzverif.Assert(w.SigningMsg() == v.SigningMsg(), "digest-recomputed-from-the-wire-form")
+	zzverif.Reach("end")
+}
